@@ -73,4 +73,17 @@ spec_crc16_step_norm(uint16_t poly, uint16_t crc, uint8_t b)
 #define POLY_CRC32_ISCSI      0x1EDC6F41U
 #define POLY_CRC32_ISCSI_REFL 0x82F63B78U
 #define POLY_CRC16_T10DIF     0x8BB7U
+/* Adler-32 (RFC 1950 section 8.2): per byte  A = (A + byte) mod 65521,  B = (B + A) mod 65521,
+ * value = B * 65536 + A.  Loop-free step functions. */
+#define SPEC_ADLER_MOD 65521u
+static inline uint32_t
+spec_adler_a(uint32_t a, uint8_t byte)
+{
+        return (a + byte) % SPEC_ADLER_MOD;
+}
+static inline uint32_t
+spec_adler_b(uint32_t b, uint32_t a_new)
+{
+        return (b + a_new) % SPEC_ADLER_MOD;
+}
 #endif
